@@ -174,6 +174,13 @@ def rule_decl_filter(db: ProgramDB) -> List[Instance]:
                         "the supplied domain is not filtered by isinstance(v, <class>): members of other types would "
                         "range over the variable"))
     for n, pred_cls, lazy in filters:
+        if pred_cls == p0 and not lazy:
+            out.append(inst("DECL-FILTER", VIOLATION, fn, "extract_selected_variable_and_expression[isinstance filter is lazy]",
+                            f"`{unparse(n)[:90]}` builds the filtered domain eagerly: when no member of the domain is an instance "
+                            f"of the class the result is an empty (falsy) collection, which Variable._update_domain_ takes for "
+                            f"'no domain given', so the variable ranges over the registry of all instances instead of nothing",
+                            line=n.lineno))
+            continue
         ok = pred_cls == p0
         out.append(inst("DECL-FILTER", HOLDS if ok else VIOLATION, fn, "extract_selected_variable_and_expression[isinstance filter]",
                         f"`{unparse(n)[:90]}` keeps exactly the instances of the class being constructed (`{p0}`)" if ok else
@@ -257,4 +264,27 @@ def rule_field_eq(db: ProgramDB) -> List[Instance]:
     out.append(inst("FIELD-EQ", HOLDS if conj else VIOLATION, fn, "properties_to_expression_tree[conjoined]",
                     "several field equalities are conjoined with AND" if conj else
                     "several field equalities are not combined with AND"))
+    return out
+
+
+def rule_cls_args_signature(db: ProgramDB) -> List[Instance]:
+    """SLOT-ALIGN binds positional values to `cls_args[cls]`; that list must be the parameter list of the class's actual
+    __init__ (inspect.signature), on every path - not e.g. the dataclass field order, which differs for kw_only /
+    init=False / InitVar fields and hand-written __init__."""
+    out = []
+    fn = db.fn("predicate:update_cls_args")
+    p0 = fn.positional_params[0]
+    stores = [n for n in own_nodes(fn.node) if isinstance(n, ast.Assign) and any(
+        isinstance(t, ast.Subscript) and isinstance(t.value, ast.Name) and t.value.id == "cls_args" for t in n.targets)]
+    if not stores:
+        raise AnalysisError("update_cls_args: no store into cls_args found")
+    for s_ in stores:
+        v = s_.value
+        src = unparse(v)
+        sig = [c for c in ast.walk(v) if isinstance(c, ast.Call) and (dotted(c.func) or "").endswith("signature")]
+        ok = bool(sig) and any(unparse(c.args[0]) == f"{p0}.__init__" for c in sig if c.args) and ".parameters" in src
+        out.append(inst("CLS-ARGS-SIGNATURE", HOLDS if ok else VIOLATION, fn, f"update_cls_args[{src[:50]}]",
+                        f"`{unparse(s_)[:90]}`: the parameter names of the class's own __init__" if ok else
+                        f"`{unparse(s_)[:90]}` is not the parameter list of `{p0}.__init__`: positional field values are bound "
+                        f"to the wrong fields whenever that order differs from __init__'s", line=s_.lineno))
     return out
